@@ -17,7 +17,7 @@ func init() { register(genMcu) }
 //   - which methods release the MCU objects and that a release bumps the generation,
 //   - the shape of the permission-revocation sweep in processAsyncMessage.
 func genMcu(c *ctx) *leanFile {
-	l := c.newLean("Mcu", "clientsession.go", "mcu_janus.go", "mcu_janus_publisher.go", "mcu_janus_subscriber.go", "mcu_common.go", "session.go")
+	l := c.newLean("Mcu", "clientsession.go", "mcu_janus.go", "mcu_janus_publisher.go", "mcu_janus_subscriber.go", "mcu_common.go", "session.go", "room.go", "hub.go", "client.go")
 	cs := c.file("clientsession.go")
 	janus := c.file("mcu_janus.go")
 	common := c.file("mcu_common.go")
@@ -507,6 +507,9 @@ func genMcu(c *ctx) *leanFile {
 		publishPerms = append(publishPerms, permConst[n])
 	}
 	l.strList("publishPermissions", publishPerms, okPerms, "session.go: PERMISSION_MAY_PUBLISH_{MEDIA,AUDIO,VIDEO,SCREEN} not found")
+
+	// ---- the ways a session stops being in the call / in the room / alive (mcuexits.go)
+	genMcuExits(c, l)
 	return l
 }
 
